@@ -870,6 +870,36 @@ Section Sanitizer.
   Qed.
 End Sanitizer.
 
+(* Several taint problems: only the sanitizers of the problem being solved may stop its traversal.  Stopping at MORE nodes
+   (e.g. at the sanitizers of every problem of the configuration) can only lose reachable nodes ... *)
+Lemma sreach_antimono : forall out (stop stop' : nat -> bool) roots n,
+  (forall x, stop x = true -> stop' x = true) ->
+  sreach out stop' roots n -> sreach out stop roots n.
+Proof.
+  intros out stop stop' roots n Hs H. induction H as [x Hx | x y Hx IH Hst Hy].
+  - apply sr_root; auto.
+  - eapply sr_step; eauto. destruct (stop x) eqn:E; auto. apply Hs in E. congruence.
+Qed.
+
+Theorem other_problem_sanitizers_only_lose : forall out stop_p stop_q fuel fuel' roots res res',
+  visit out stop_p fuel roots = Some res ->
+  visit out (fun n => stop_p n || stop_q n) fuel' roots = Some res' ->
+  incl res' res.
+Proof.
+  intros out stop_p stop_q fuel fuel' roots res res' H H' n Hn.
+  apply (sanitizer_stop_exact out stop_p fuel roots res H).
+  apply (sanitizer_stop_exact out _ fuel' roots res' H') in Hn.
+  eapply sreach_antimono; [|exact Hn]. intros x Hx. simpl. rewrite Hx. reflexivity.
+Qed.
+
+(* ... and does lose them: problem P: 0 (source) -> 1 (call of a sanitizer of problem Q only) -> 2 -> 4 (sink) *)
+Definition ex_out_q (n : nat) : list nat := match n with 0 => [1] | 1 => [2] | 2 => [4] | _ => [] end.
+
+Example other_problem_sanitizer_must_not_stop :
+  visit ex_out_q (fun _ => false) 10 [0] = Some [4; 2; 1; 0] /\
+  visit ex_out_q (fun n => false || (n =? 1)) 10 [0] = Some [1; 0].
+Proof. split; vm_compute; reflexivity. Qed.
+
 (* source 0 -> {1 (the sanitizer call), 3}, 1 -> 2 -> 4 (sink), 3 -> 4: the flow through 3 bypasses the sanitizer *)
 Definition ex_out (n : nat) : list nat :=
   match n with 0 => [1; 3] | 1 => [2] | 2 => [4] | 3 => [4] | _ => [] end.
